@@ -18,8 +18,10 @@ CONT = ['ndarray', 'csr', 'csc', 'coo', 'lil']
 
 def shards(tier):
     if tier == 'quick':
-        return [dict(kind='flux', n=1600, parts=16, timeout=900)]
-    return [dict(kind='flux', n=48000, parts=16, timeout=3400)]
+        return [dict(kind='flux', n=1600, parts=16, timeout=900),
+                dict(kind='large', n=8, parts=4, timeout=900, start=900000)]
+    return [dict(kind='flux', n=48000, parts=16, timeout=3400),
+            dict(kind='large', n=120, parts=8, timeout=3400, start=900000)]
 
 
 def setup(ctx):
@@ -41,10 +43,24 @@ def teardown(ctx):
 def run_case(ctx, kind, rng, idx):
     from vf.monitor import Frozen
     from vf.props.c07 import gen_sets
-    T, pi = mc.reversible_chain(rng, nmin=2, nmax=30)
+    conts = CONT
+    if kind == 'large':
+        # >= 1000 states in a sparse container: the stationary distribution
+        # comes from the sparse (ARPACK) eigen-solver instead of LAPACK; a
+        # slowly mixing chain, so that solver has real work to do
+        Cs = mc.large_metastable_counts(rng, symmetric=True)
+        rs_ = np.asarray(Cs.sum(axis=1)).ravel().astype(float)
+        T = Cs.toarray() / rs_[:, None]
+        pi = rs_ / rs_.sum()
+        conts = ['csr', 'csc']
+        ctx.count('large_sparse_cases')
+    else:
+        T, pi = mc.reversible_chain(rng, nmin=2, nmax=30)
     n = len(T)
     src, snk = gen_sets(rng, n)
-    give_pops = bool(rng.random() < 0.5)
+    if kind == 'large':
+        src, snk = src[:3], snk[:3]
+    give_pops = bool(rng.random() < (0.25 if kind == 'large' else 0.5))
     desc = {'n': n, 'sources': src, 'sinks': snk, 'populations_given':
             give_pops, 'T': T if n <= 6 else 'elided'}
     ctx.describe(desc)
@@ -64,7 +80,7 @@ def run_case(ctx, kind, rng, idx):
     N = np.maximum(F - F.T, 0)
     tol = 1e-10
     res = {}
-    for cname in CONT:
+    for cname in conts:
         Tin = mc.to_container(T, cname, rng)
         pops = pi.copy() if give_pops else None
         if give_pops and idx % 5 == 0:
@@ -143,7 +159,7 @@ def run_case(ctx, kind, rng, idx):
                                   '[%s] not pi q+ q- normalised' % cname)
     # the same matrix object refilled in place (a sweep over models reusing
     # one buffer) with the same sources/sinks: results follow the contents
-    if idx % 2 == 0:
+    if idx % 2 == 0 and kind != 'large':
         T2, pi2 = mc.reversible_chain(rng, n=n)
         q2 = np.zeros(n)
         q2[snk] = 1
